@@ -43,6 +43,7 @@ inductive Expr where
   | un (op : UnOp) (e : Expr)
   | bin (op : BinOp) (a b : Expr)
   | cmp (op : BinOp) (a b : Expr)
+  | chain3 (op1 op2 : BinOp) (a b c : Expr)     -- `a op1 b op2 c`: `b` is evaluated once
   | and (a b : Expr)
   | or (a b : Expr)
   | assign (x : VarId) (e : Expr)
@@ -92,6 +93,22 @@ def eval : Expr → Env S → Option (S.V × Env S)
     | some (va, ρ1) =>
       match eval b ρ1 with
       | some (vb, ρ2) => (S.binop op va vb).map (fun r => (r, ρ2))
+      | none => none
+    | none => none
+  | .chain3 op1 op2 a b c, ρ =>
+    -- `(a op1 b) and (b op2 c)` with `b` evaluated once; `c` only if the first comparison holds
+    match eval a ρ with
+    | some (va, ρ1) =>
+      match eval b ρ1 with
+      | some (vb, ρ2) =>
+        match S.binop op1 va vb with
+        | some r1 =>
+          if S.truthy r1 then
+            match eval c ρ2 with
+            | some (vc, ρ3) => (S.binop op2 vb vc).map (fun r => (r, ρ3))
+            | none => none
+          else some (r1, ρ2)
+        | none => none
       | none => none
     | none => none
   | .and a b, ρ =>
@@ -340,6 +357,20 @@ def compile : Expr → Mode → Frame → Option (Code × Out × Frame)
     let (cb, ob, F3) ← compile b .any F2
     let rb ← ob.reg
     pure (.seq ca (.seq cb (instrIf res.reg (fun r => .binop op r ra rb))), res, { F3 with tc := F1.tc })
+  | .chain3 op1 op2 a b c, m, F => do
+    -- compile_comparison_op with one chained comparison: the first comparison goes into the
+    -- comparison register (the result register, or a temporary), a false result jumps to the end
+    let (res, F1) ← assignResult m F
+    let (creg, F1') ← resultOrTemp res F1
+    let (ca, oa, F2) ← compile a .any F1'
+    let ra ← oa.reg
+    let (cb, ob, F3) ← compile b .any F2
+    let rb ← ob.reg
+    let (cc, oc, F4) ← compile c .any F3
+    let rc ← oc.reg
+    pure (.seq ca (.seq cb (.seq (.instr (.binop op1 creg ra rb))
+            (.jumpIfFalse creg (.seq cc (instrIf res.reg (fun r => .binop op2 r rb rc)))))),
+          res, { F4 with tc := F1.tc })
   | .and a b, m, F => do
     let (res, F1) ← assignResult m F
     let (reg, F2) ← resultOrTemp res F1
